@@ -378,5 +378,5 @@ def thin_map(case, r):
 
 def subs(ctx):
     return [Sub("thin_map", thin_map, strategy=map_case_st(), quick=220, thorough=1500,
-                required={"d2": 0.25, "d3": 0.25, "has_inside_pixels": 0.5, "ratio_<0.1": 0.08, "ratio_0.1-1": 0.15,
-                          "ratio_1-10": 0.15, "ratio_>10": 0.08, "schedule_checked": 0.1})]
+                required={"d2": 0.25, "d3": 0.25, "has_inside_pixels": 0.5, "ratio_<0.1": 0.06, "ratio_0.1-1": 0.1,
+                          "ratio_1-10": 0.1, "ratio_>10": 0.06, "schedule_checked": 0.1})]
